@@ -72,7 +72,8 @@ func (Prop) SelfTest() error {
 }
 
 func (Prop) Rule() string {
-	return "E2: full product, every artefact produced by the real library with a deterministic cached PKI (3 families SM2/RSA-2048/ECDSA-P256: root, intermediate, 4 leaves): " +
+	return "Added dimensions: signer sets whose digest algorithm is switched (SetDigestAlgorithm) between AddSigner calls on one SignedData, within and across key families (13 sets x lengths {0,17,1000} x with/without attributes x both OID sets); ber2der on synthetic DER whose primitive and constructed element lengths sit on every length-encoding boundary (0,1,2,126..129,254..257,65534..65537) at depth 1..3, also inside an indefinite-length wrapper. " +
+		"E2: full product, every artefact produced by the real library with a deterministic cached PKI (3 families SM2/RSA-2048/ECDSA-P256: root, intermediate, 4 leaves): " +
 		"SignedData = content length {0,1,15,16,17,1000} x mode {attached, detached, noattr-attached, noattr-detached, digest-attr, digest-noattr} x 9 (digest,signature) pairs {SM3-SM2, SHA-1/256/384/512 x RSA, ECDSA} x signer sets {1, 2, 3 (third through AddSignerChain + intermediate), chained-only} " +
 		"x {Verify, VerifyWithChain(root), VerifyWithChainAtTime; foreign trust store must refuse; altered external/attached content must refuse}; " +
 		"EnvelopedData = 6 producers {pkcs7.Encrypt, EncryptSM, EncryptCFCA(legacy C1C2C3), EnvelopeMessageCFCA(SKI), cfca.EnvelopeMessage, cfca.EnvelopeMessageLegacy} x 12 registered content ciphers x 6 lengths x recipient sets {SM2 x1..3, RSA x1..3, SM2+RSA+SM2}: every recipient opens to the content through the pkcs7 API and through the cfca wrapper, every private key that is not a recipient's (non-recipient certificate with its key; each recipient certificate with an outsider SM2 key and an outsider RSA key) gets an error; " +
@@ -142,6 +143,9 @@ func (Prop) Run(c *engine.Ctx) {
 	// standard library in both builds and the ASN.1 layer is plain Go. In the quick tier the purego workers
 	// therefore run the cases that execute SM primitives; the thorough tier runs everything in both builds.
 	smOnly := quick && c.Config == "c-purego"
+
+	runBerBoundaries(c)
+	runMixedSigners(c, getPKI)
 
 	// ---------------- E3 EncryptedData first: small artefacts, so this case is the cheap replay for every
 	// parser / content-cipher panic class it shares with the big seeds (the engine confirms a finding key by
